@@ -11,7 +11,13 @@ let run (path : string) =
         let fl = split (bytes_of_hex f) and nl = split (bytes_of_hex n) in
         let m = match_route fl nl in
         if r = "1" then begin incr nontriv; if !samples < 3 && !nontriv mod 900 = 1 then (incr samples; Printf.printf "SAMPLE %s\n" line) end;
-        if (if m then "1" else "0") <> r then begin
+        if r = "PANIC" then begin
+          incr mism; incr fails;
+          if !fails <= 20 then begin
+            Printf.printf "MISMATCH match PANIC :: %s\n" line;
+            Printf.printf "FAIL C25 client-matcher-panics :: %s\n" line;
+            Printf.printf "FAIL C27 matcher-panics :: %s\n" line end end
+        else if (if m then "1" else "0") <> r then begin
           incr mism; if !mism <= 20 then Printf.printf "MISMATCH match model=%b :: %s\n" m line;
           (* match_route decides MQTT matching for well-formed filters (C27_match_is_mqtt_matching) *)
           if valid_filter fl then begin incr fails; if !fails <= 20 then Printf.printf "FAIL C27 matcher-deviates-from-mqtt-rules :: %s\n" line end
